@@ -1055,6 +1055,14 @@ pub fn run(prop: Prop, tier: Tier) -> i32 {
         rep.bound("composition", tier.pick("depth 2: every kind in every child position of every kind x all leaf tuples over an 8-value pool", "as quick + chains of three kinds along every spine over a 3-value pool"));
     }
 
+    // C01: user functions whose `cacheable()` answer varies from query to query must not make
+    // the evaluator panic either (every answer script up to the bound)
+    if prop == Prop::C01 {
+        let (acc_s, n) = super::c11::script_leg(tier, true);
+        rep.bound("cacheable_answer_scripts", n);
+        rep.absorb(acc_s);
+    }
+
     // input shapes
     let mut acc3 = Acc::new();
     input_shapes(prop, &mut acc3);
@@ -1146,6 +1154,7 @@ pub fn replay(prop: Prop, case: &J) -> i32 {
                 0
             }
         }
+        Some("cacheable-script") => super::c11::replay(case),
         Some("shape") => {
             let text = case.get("text").and_then(|t| t.as_str()).unwrap_or("");
             let facts = case.get("facts").and_then(RV::from_json).unwrap_or(RV::None);
